@@ -270,7 +270,7 @@ func compScenarios(a map[string]string) *compScenario {
 			items = append(items, l)
 		}
 		return &compScenario{
-			desc: fmt.Sprintf("%s/lens=%v/buf=%s", a["comp"], lens, a["buf"]),
+			desc: fmt.Sprintf("%s/lens=%v/buf=%s", a["comp"], lens, a["buf"]) + map[bool]string{true: "/one-consuming-process", false: ""}[a["zip"] == "1"],
 			setup: func() {
 				if !isParam {
 					for _, l := range items {
@@ -281,7 +281,27 @@ func compScenarios(a map[string]string) *compScenario {
 				}
 			},
 			build: func(wf *sp.Workflow) {
-				if isParam {
+				if isParam && a["zip"] == "1" {
+					// the documented use: ONE process takes a value from every out-port per task (lock-step)
+					c := components.NewParamCombinator(wf, "comb")
+					pat := "echo"
+					for _, n := range names {
+						pat += " {p:" + n + "}"
+					}
+					use := wf.NewProc("use", pat)
+					use.CustomExecute = func(t *sp.Task) {
+						vals := []string{}
+						for _, n := range names {
+							vals = append(vals, t.Param(n))
+						}
+						vs.Note("recv:use:" + strings.Join(vals, "+"))
+					}
+					for i, n := range names {
+						s := components.NewParamSource(wf, "src_"+n, items[i]...)
+						c.InParam(n).From(s.Out())
+						use.InParam(n).From(c.OutParam(n))
+					}
+				} else if isParam {
 					c := components.NewParamCombinator(wf, "comb")
 					for i, n := range names {
 						s := components.NewParamSource(wf, "src_"+n, items[i]...)
@@ -302,6 +322,19 @@ func compScenarios(a map[string]string) *compScenario {
 			oracle: func(o *Obs, add func(class, detail string)) {
 				rc := received(o.Notes)
 				want := product(items)
+				if a["zip"] == "1" {
+					got := append([]string{}, rc["use"]...)
+					ws := []string{}
+					for _, t := range want {
+						ws = append(ws, strings.Join(t, "+"))
+					}
+					sort.Strings(got)
+					sort.Strings(ws)
+					if strings.Join(got, " ") != strings.Join(ws, " ") {
+						add("combinator-product", fmt.Sprintf("tasks of the consuming process: [%s]; Cartesian product: [%s]", strings.Join(got, " "), strings.Join(ws, " ")))
+					}
+					return
+				}
 				n := -1
 				for _, nm := range names {
 					l := len(rc["rec_"+nm])
@@ -401,9 +434,15 @@ func compScenarios(a map[string]string) *compScenario {
 				sp2 := components.NewFileSplitter(wf, "split", per)
 				sp2.InFile().From(s.Out())
 				r := newRecorder(wf, "rec")
+				r.reads = true
 				r.InPort("in").From(sp2.OutSplitFile())
 			},
 			oracle: func(o *Obs, add func(class, detail string)) {
+				for _, nt := range o.Notes {
+					if strings.HasPrefix(nt, "unreadable:") {
+						add("splitter-part-not-final", "a part was handed on before it could be read at its path: "+strings.TrimPrefix(nt, "unreadable:rec:"))
+					}
+				}
 				rc := received(o.Notes)
 				cat := ""
 				for _, p := range rc["rec"] {
